@@ -47,6 +47,8 @@ pub fn populate(mk: &mut Mk, o: &TreeOpts) {
         mk.file(root, "OLD.DAT", 0x20, &old, 2 * cb + cb / 2, 1);
         mk.file(root, "RO.DAT", 0x21, &[fix(5)], 100, 2);
         mk.file(root, "EMPTY.DAT", 0x20, &[], 0, 3);
+        // exactly three clusters (cluster-aligned length), chain not in ascending order
+        mk.file(root, "ALGN.DAT", 0x20, &[fix(15), fix(14), fix(16)], 3 * cb, 6);
         // a deleted slot
         let mut del = short_entry(&mkfs::n11("DELETED.TXT"), 0x20, 0, 0, FMT_DATE, FMT_TIME, FMT_DATE, FMT_TIME);
         del[0] = 0xE5;
